@@ -336,3 +336,132 @@ Example C18_example_trace :
   seen_thrift (mkT true sets false false) m = Some m /\
   seen_thrift (mkT true sets false false) ((c_tracingKeyPrefix ++ [120], [49]) :: m) = Some m.
 Proof. vm_compute. repeat split; reflexivity. Qed.
+
+(* ======================================================================================
+   The arg2 iterator OFFERED TO RELAY HOSTS: the relay's lazy frame parsers (relay_messages.go).
+   A relay parses every call req / call res frame lazily (newLazyCallReq / newLazyCallRes) and
+   hands the RelayHost a relay.CallFrame whose Arg2Iterator() / arg2 offsets / Arg2() refer to
+   the frame -- a POOLED frame: behind the sized payload the payload array holds whatever an
+   earlier frame left there.  Model/RelayLazy.v lazy_callreq (the parser on f.SizedPayload()),
+   Model/C18LazyFrame.v (Arg2Iterator / arg2() slice the ARRAY with the parser's 16-bit offsets;
+   arg3() slices the sized payload; newLazyCallRes); go_slice = Go's slice expression with its
+   panic as None, A2Panic = Arg2Iterator panics.
+   Statement: an ACCEPTED frame is one in which every read succeeded, so all offsets lie inside
+   the sized payload; hence the iterator cannot panic, cannot show a byte that is not in the
+   frame, and yields exactly the pairs present in the arg2 region of the sized payload.
+   ====================================================================================== *)
+From Verif Require Import Model.RelayLazy Model.C18LazyFrame Proofs.C18LazyP
+  Model.C18GoLib Gen.GenMessages Gen.GenC18Lazy Proofs.C18LazyGenP.
+
+(* all offsets of an accepted call req lie inside the sized payload, in order *)
+Theorem C18_lazy_offsets : forall p lz, bytes_ok p = true -> zlen p <= 65535 -> lazy_callreq p = (0, lz) ->
+  31 <= lz_ctoff lz /\ lz_ctoff lz + 5 <= lz_a2start lz /\
+  lz_a2start lz <= lz_a2end lz <= zlen p /\
+  (lz_a2frag lz = true -> lz_a2end lz = zlen p /\ lz_a3start lz = 0) /\
+  (lz_a2frag lz = false -> lz_a3start lz = lz_a2end lz + 2 /\ lz_a3start lz <= zlen p).
+Proof. exact c18_lazy_offsets. Qed.
+
+(* arr = the frame's payload array, n = Header.PayloadSize(): for an accepted frame arg2() and
+   arg3() do not panic and ARE the slices of the sized payload; Arg2Iterator does not panic *)
+Theorem C18_lazy_arg2_sized : forall arr n lz, bytes_ok arr = true -> 0 <= n <= zlen arr -> n <= 65535 ->
+  lazy_callreq (firstn (Z.to_nat n) arr) = (0, lz) ->
+  lazy_arg2_arr arr lz = Some (lz_arg2 (firstn (Z.to_nat n) arr) lz) /\
+  lazy_arg3_sized (firstn (Z.to_nat n) arr) lz = Some (lz_arg3 (firstn (Z.to_nat n) arr) lz) /\
+  lazy_arg2_iter arr lz <> A2Panic.
+Proof. exact c18_lazy_arg2_sized. Qed.
+
+(* two frames with the same sized payload offer the same, whatever lies behind it in the arrays *)
+Theorem C18_lazy_stale_independent : forall arr arr' n lz, bytes_ok arr = true -> bytes_ok arr' = true ->
+  0 <= n <= zlen arr -> 0 <= n <= zlen arr' -> n <= 65535 ->
+  firstn (Z.to_nat n) arr = firstn (Z.to_nat n) arr' ->
+  lazy_callreq (firstn (Z.to_nat n) arr) = (0, lz) ->
+  lazy_arg2_iter arr lz = lazy_arg2_iter arr' lz /\ lazy_arg2_arr arr lz = lazy_arg2_arr arr' lz.
+Proof. exact c18_lazy_stale_independent. Qed.
+
+(* the pairs the relay host's iterator yields are literally inside the arg2 region of the sized
+   payload, in order; at most the announced count, exactly the count when it ends with io.EOF *)
+Theorem C18_lazy_iter_sound : forall arr n lz ps fin, bytes_ok arr = true -> 0 <= n <= zlen arr -> n <= 65535 ->
+  lazy_callreq (firstn (Z.to_nat n) arr) = (0, lz) ->
+  lazy_arg2_iter arr lz = A2Pairs ps fin ->
+  let a2 := lz_arg2 (firstn (Z.to_nat n) arr) lz in
+  (ps = [] /\ (length a2 < 2)%nat) \/
+  exists count rest, 0 <= count <= 65535 /\ a2 = be 2 count ++ flat_map s_pair ps ++ rest /\
+    zlen ps <= count /\ (fin = true -> zlen ps = count).
+Proof. exact c18_lazy_iter_sound. Qed.
+
+(* call res: the arg2 a relay host gets is a piece of the sized payload (and its tail when fragmented) *)
+Theorem C18_lazyres_arg2 : forall fl p lr, lazy_callres fl p = (0, lr) ->
+  exists off, 0 <= off /\ off + zlen (lr_arg2 lr) <= zlen p /\
+    lr_arg2 lr = slice p off (off + zlen (lr_arg2 lr)) /\
+    (lr_a2frag lr = true -> off + zlen (lr_arg2 lr) = zlen p).
+Proof. exact c18_lazyres_arg2. Qed.
+
+(* REGENERATED from the source on every run (go2v/c18lazy.go -> Gen/GenC18Lazy.v: the WHOLE of
+   newLazyCallReq and newLazyCallRes with their header loops, Frame.SizedPayload,
+   FrameHeader.PayloadSize, ChecksumType.ChecksumSize, hasMoreFragments, lazyCallReq.
+   HasMoreFragments / arg2 / arg3 / Arg2Iterator / Arg2StartOffset / Arg2EndOffset) and proved
+   equal to the models: for EVERY frame f (payload array not empty, any header size) the generated
+   parser does not panic, accepts (error = nil) exactly when the model does -- i.e. exactly when
+   every read of the typed.ReadBuffer succeeded, the rbuf.Err() test standing AFTER the last read
+   on every path to `return cr, nil` -- and then holds the model's offsets / fields.  An edit
+   that returns before the test, drops it, reorders it with a read, or computes an offset
+   otherwise breaks this theorem. *)
+Theorem C18_lazy_generated :
+  (forall f sp, bytes_ok (bs_list (Frame_Payload f)) = true -> 1 <= bs_len (Frame_Payload f) ->
+     Frame_SizedPayload f = Some sp ->
+     exists cr e, newLazyCallReq f = Some (cr, e) /\
+       (e =? 0) = (fst (lazy_callreq (bs_list sp)) =? 0) /\
+       (e = 0 -> c18_abs_lazy cr = snd (lazy_callreq (bs_list sp)) /\ lazyCallReq_Frame cr = f)) /\
+  (forall f sp, bytes_ok (bs_list (Frame_Payload f)) = true -> Frame_SizedPayload f = Some sp ->
+     let fl := nth 0 (bs_list (Frame_Payload f)) 0 in
+     exists cr e, newLazyCallRes f = Some (cr, e) /\
+       (e =? 0) = (fst (lazy_callres fl (bs_list sp)) =? 0) /\
+       (e = 0 -> c18_abs_lazyres cr = snd (lazy_callres fl (bs_list sp)) /\ lazyCallRes_Frame cr = f)) /\
+  (forall f, 1 <= bs_len (Frame_Payload f) ->
+     Gen.GenC18Lazy.hasMoreFragments f = Some (c18_has_more (Frame_Payload f)) /\
+     forall cr, lazyCallReq_Frame cr = f -> lazyCallReq_HasMoreFragments cr = Some (c18_has_more (Frame_Payload f))).
+Proof. exact (conj c18_newLazyCallReq_agrees (conj c18_newLazyCallRes_agrees c18_has_more_tie)). Qed.
+
+(* ... hence, about the GENERATED accessors themselves: on a frame the generated parser accepted,
+   the generated Arg2Iterator does not panic (None), the generated arg2() / arg3() return the
+   slices of the SIZED payload; the generated call res parser's arg2 is a piece of the sized payload *)
+Theorem C18_lazy_generated_safe : forall f sp cr,
+  bytes_ok (bs_list (Frame_Payload f)) = true -> 1 <= bs_len (Frame_Payload f) ->
+  Frame_SizedPayload f = Some sp -> newLazyCallReq f = Some (cr, 0) ->
+  exists lz, lazy_callreq (bs_list sp) = (0, lz) /\ c18_abs_lazy cr = lz /\
+    lazyCallReq_Arg2Iterator cr <> None /\
+    option_map bs_list (lazyCallReq_arg2 cr) = Some (lz_arg2 (bs_list sp) lz) /\
+    option_map bs_list (lazyCallReq_arg3 cr) = Some (lz_arg3 (bs_list sp) lz).
+Proof. exact c18_gen_lazyreq_safe. Qed.
+Theorem C18_lazyres_generated_safe : forall f sp cr,
+  bytes_ok (bs_list (Frame_Payload f)) = true -> Frame_SizedPayload f = Some sp ->
+  newLazyCallRes f = Some (cr, 0) ->
+  exists off, 0 <= off /\ off + bs_len (lazyCallRes_arg2Payload cr) <= bs_len sp /\
+    bs_list (lazyCallRes_arg2Payload cr) = slice (bs_list sp) off (off + bs_len (lazyCallRes_arg2Payload cr)) /\
+    (lazyCallRes_arg2IsFragmented cr = true -> off + bs_len (lazyCallRes_arg2Payload cr) = bs_len sp).
+Proof. exact c18_gen_lazyres_safe. Qed.
+
+Print Assumptions C18_lazy_offsets.
+Print Assumptions C18_lazy_iter_sound.
+Print Assumptions C18_lazy_generated.
+Print Assumptions C18_lazy_generated_safe.
+Print Assumptions C18_lazyres_generated_safe.
+
+(* non-vacuity.  The seed's frame: more-fragments flag, as=thrift, the payload ends right after an
+   arg2 length of 0xFFFF: rejected (typed.ErrEOF), by the model and by the GENERATED parser; the
+   same header with a complete arg2 (one pair k -> v) and the flag: accepted, arg2 fragmented,
+   offsets inside, the iterator yields the pair although the array goes on with another pair *)
+Definition c18_ex_head (flags : Z) : list Z :=
+  [flags; 0; 0; 3; 232] ++ repeat 0 25 ++ [1; 115] ++ [1; 2; 97; 115; 6; 116; 104; 114; 105; 102; 116] ++ [0] ++ [0; 1; 109].
+Definition c18_ex_stale : list Z := [0; 1; 0; 1; 88; 0; 1; 89; 7; 7].
+Example C18_example_lazy_truncated :
+  fst (lazy_callreq (c18_ex_head 1 ++ [255; 255])) = 11 /\
+  fst (lazy_callreq (c18_ex_head 1 ++ [0; 24])) = 11 /\
+  (let f := mk_Frame (mk_FrameHeader (16 + 49) 3 0 7 []) (Some (c18_ex_head 1 ++ [255; 255] ++ c18_ex_stale)) in
+   option_map snd (newLazyCallReq f)) = Some e_typed_ErrEOF.
+Proof. vm_compute. repeat split; reflexivity. Qed.
+Example C18_example_lazy_accepted :
+  let p := c18_ex_head 1 ++ [0; 8] ++ [0; 1; 0; 1; 107; 0; 1; 118] in
+  exists lz, lazy_callreq p = (0, lz) /\ lz_a2frag lz = true /\ lz_a2start lz = 49 /\ lz_a2end lz = 57 /\ zlen p = 57 /\
+    lazy_arg2_iter (p ++ c18_ex_stale) lz = A2Pairs [([107], [118])] true.
+Proof. eexists. vm_compute. repeat split; reflexivity. Qed.
